@@ -325,9 +325,9 @@ struct RecCtor {
 // ---- wrappers -------------------------------------------------------------------------------------
 #ifdef VH_STD
 using W   = std::function<int(int)>;
-using WS  = std::function<int(int)>;
+using WS  = std::function<int(int)>; // "smaller capacity" has no meaning for std::function: the plain copy / move is calibrated
 using W3  = std::function<int(int&, int const&, int&&)>;
-constexpr bool have_small = false;
+constexpr bool have_small = true;
 #else
 using W   = etl::inplace_function<int(int), 16>;
 using WS  = etl::inplace_function<int(int), 8>;
@@ -344,7 +344,9 @@ void unsupported(std::string const& what)
 // =================================== fam "ipf" =====================================================
 struct IpfRunner {
     alignas(W) unsigned char store[2][sizeof(W)];
+    alignas(WS) unsigned char store_h[sizeof(WS)];
     W* ob[2];
+    WS* h; // persistent wrapper of the smaller capacity: source of the cross-capacity constructors / assignments
     long nev = 0, nskip = 0;
     bool broken = false, life_used = false;
     json ext_vals = json::array(), ext_end = json::array();
@@ -352,10 +354,12 @@ struct IpfRunner {
     IpfRunner()
     {
         for (int i = 0; i < 2; ++i) { ob[i] = new (store[i]) W(); }
+        h = new (store_h) WS();
     }
     ~IpfRunner()
     {
         for (int i = 0; i < 2; ++i) { ob[i]->~W(); }
+        h->~WS();
     }
     static int oi(std::string const& o) { return o == "f" ? 0 : 1; }
 
@@ -365,7 +369,8 @@ struct IpfRunner {
         {
 #ifndef VH_STD
             vh::life().begin_window({{reinterpret_cast<char const*>(R.store[0]), sizeof(W), 1, 1},
-                {reinterpret_cast<char const*>(R.store[1]), sizeof(W), 1, 2}});
+                {reinterpret_cast<char const*>(R.store[1]), sizeof(W), 1, 2},
+                {reinterpret_cast<char const*>(R.store_h), sizeof(WS), 1, 3}});
             R.ext_vals  = json::array();
             R.life_used = true;
 #endif
@@ -389,7 +394,8 @@ struct IpfRunner {
     };
 
     // state of one wrapper through its public interface: bool, and (when not empty) which target a call reaches
-    json project(W& w)
+    template <typename WT>
+    json project(WT& w)
     {
         json s;
         bool e = static_cast<bool>(w);
@@ -425,9 +431,11 @@ struct IpfRunner {
         json s;
         s["f"] = project(*ob[0]);
         s["g"] = project(*ob[1]);
+        s["h"] = project(*h);
         return s;
     }
-    static json observe(W const& w)
+    template <typename WT>
+    static json observe(WT const& w)
     {
         json o;
         o["bool"]   = static_cast<bool>(w);
@@ -484,15 +492,30 @@ struct IpfRunner {
                 decl(g, p);
                 if (xm) { v = std::move(p); } else { v = p; }
             });
-        } else if (op == "ctor_copy_small" || op == "ctor_move_small") {
-            if constexpr (have_small && requires(WS & s) { W(std::as_const(s)); W(std::move(s)); }) {
-                // the source lives in harness storage: no cell can be named for it, the lifetime monitor is not fed
-                WS s;
-                if (xt == 1) { s = WS(&fn1); }
-                else if (xt == 2) { s = WS(P2(xc)); }
-                else if (xt == 3) { s = WS(P3(xc)); }
-                v.~W();
-                if (op == "ctor_copy_small") { new (&v) W(std::as_const(s)); } else { new (&v) W(std::move(s)); }
+        } else if (op == "set_small") {
+            // (re)construct the small wrapper h from a target (t = 0: empty)
+            if (xt == 0) {
+                Guard g(*this);
+                h->~WS();
+                new (store_h) WS();
+            } else {
+                with_target(xt, xc, [&](auto& p) {
+                    // only targets that fit the small capacity (the model offers nothing else)
+                    if constexpr (sizeof(p) <= 8) {
+                        Guard g(*this);
+                        decl(g, p);
+                        h->~WS();
+                        new (store_h) WS(p);
+                    } else { ok = false; }
+                });
+            }
+        } else if (op == "ctor_copy_small" || op == "ctor_move_small" || op == "assign_copy_small" || op == "assign_move_small") {
+            if constexpr (have_small && requires(WS & s, W & d) { W(std::as_const(s)); W(std::move(s)); d = std::as_const(s); d = std::move(s); }) {
+                Guard g(*this);
+                if (op == "ctor_copy_small") { v.~W(); new (&v) W(std::as_const(*h)); }
+                else if (op == "ctor_move_small") { v.~W(); new (&v) W(std::move(*h)); }
+                else if (op == "assign_copy_small") { v = std::as_const(*h); }
+                else { v = std::move(*h); }
             } else { ok = false; }
         } else if (op == "ctor_copy") {
             Guard g(*this);
@@ -560,6 +583,7 @@ struct IpfRunner {
         json obs;
         obs["f"]  = observe(*ob[0]);
         obs["g"]  = observe(*ob[1]);
+        obs["h"]  = observe(*h);
         ev["obs"] = obs;
 #ifndef VH_STD
         if (life_used) {
@@ -580,6 +604,8 @@ struct IpfRunner {
             ob[i]->~W();
             ob[i] = new (store[i]) W();
         }
+        h->~WS();
+        h = new (store_h) WS();
     }
     void replay(std::vector<json> const& script)
     {
